@@ -597,3 +597,167 @@ func c12Wiring(p *Prog, r *Report) {
 		r.Ob("split", p.Pos(fi.Decl.Pos()), false, fmt.Sprintf("%d converter constructions found in the configuration reader, expected 2", n))
 	}
 }
+
+// ---------------------------------------------------------------- century leap rule only on calendar years
+
+// c12CenturyRule: in the range of the property leap years are the years divisible by four; the converters work on an
+// internal year (calendar year − 1900 in the forward direction), for which "divisible by four" is the same test.  A
+// Gregorian century rule (year % 100, year % 400) is only correct on a calendar year: applied to the internal year it
+// declares 2000 (internal 100) a common year.  Demanded: in the date routines and in every package function they
+// call, a remainder by 100 or 400 is never taken of the internal year — the variable the routine multiplies by 365 —
+// and a callee that takes such a remainder of a parameter receives "internal year + 1900" (directly or through a
+// local assigned exactly that once).
+func c12CenturyRule(p *Prog, r *Report) {
+	r.Rule("C12.R9", "a century leap rule (remainder by 100 or 400) is applied to calendar years only: never to the internal year of a date routine (the variable it multiplies by 365), neither in the routine itself nor through a parameter of a function it calls", 1)
+	isCentury := func(info *types.Info, be *ast.BinaryExpr) bool {
+		if be.Op != token.REM {
+			return false
+		}
+		if tv, ok := info.Types[be.Y]; ok && tv.Value != nil {
+			s := tv.Value.String()
+			return s == "100" || s == "400"
+		}
+		return false
+	}
+	// functions of the package that take a century remainder of a parameter
+	type cp struct {
+		fi  *FuncInfo
+		idx map[int]bool
+	}
+	century := map[*types.Func]*cp{}
+	for _, fi := range p.Funcs {
+		if fi.Pkg != p.Hermes || fi.Decl.Body == nil || fi.Obj == nil {
+			continue
+		}
+		info := fi.Pkg.TypesInfo
+		ast.Inspect(fi.Decl.Body, func(n ast.Node) bool {
+			be, ok := n.(*ast.BinaryExpr)
+			if !ok || !isCentury(info, be) {
+				return true
+			}
+			if id, ok := ast.Unparen(be.X).(*ast.Ident); ok {
+				if i, isP := paramIndex(fi.Decl, info.Uses[id]); isP {
+					if century[fi.Obj] == nil {
+						century[fi.Obj] = &cp{fi, map[int]bool{}}
+					}
+					century[fi.Obj].idx[i] = true
+				}
+			}
+			return true
+		})
+	}
+	nSites, bad := 0, 0
+	for _, key := range []string{"hermes.DateConverter", "hermes.KalenderDate", "hermes.KalenderConverter", "hermes.extractDate"} {
+		fi := p.Funcs[key]
+		if fi == nil {
+			continue
+		}
+		info := fi.Pkg.TypesInfo
+		// internal year(s): identifiers inside a factor of 365
+		internal := map[types.Object]bool{}
+		ast.Inspect(fi.Decl.Body, func(n ast.Node) bool {
+			be, ok := n.(*ast.BinaryExpr)
+			if !ok || be.Op != token.MUL {
+				return true
+			}
+			for _, pair := range [][2]ast.Expr{{be.X, be.Y}, {be.Y, be.X}} {
+				if tv, ok := info.Types[pair[1]]; ok && tv.Value != nil && tv.Value.String() == "365" {
+					ast.Inspect(pair[0], func(m ast.Node) bool {
+						if id, ok := m.(*ast.Ident); ok {
+							if o := info.Uses[id]; o != nil {
+								if _, isVar := o.(*types.Var); isVar {
+									internal[o] = true
+								}
+							}
+						}
+						return true
+					})
+				}
+			}
+			return true
+		})
+		// calendar-year locals: assigned once, as internal + 1900
+		calendar := func(e ast.Expr) bool {
+			be, ok := ast.Unparen(e).(*ast.BinaryExpr)
+			if !ok || be.Op != token.ADD {
+				return false
+			}
+			for _, pair := range [][2]ast.Expr{{be.X, be.Y}, {be.Y, be.X}} {
+				id, isId := ast.Unparen(pair[0]).(*ast.Ident)
+				tv, has := info.Types[pair[1]]
+				if isId && internal[info.Uses[id]] && has && tv.Value != nil && tv.Value.String() == "1900" {
+					return true
+				}
+			}
+			return false
+		}
+		mentionsInternal := func(e ast.Expr) bool {
+			f := false
+			ast.Inspect(e, func(m ast.Node) bool {
+				if id, ok := m.(*ast.Ident); ok && internal[info.Uses[id]] {
+					f = true
+				}
+				return true
+			})
+			return f
+		}
+		ast.Inspect(fi.Decl.Body, func(n ast.Node) bool {
+			switch t := n.(type) {
+			case *ast.BinaryExpr:
+				if isCentury(info, t) && mentionsInternal(t.X) && !calendar(t.X) {
+					nSites++
+					bad++
+					r.Ob("century-rule:"+short(key), p.Pos(t.Pos()), false, fmt.Sprintf("%s takes a century remainder of the internal year (%s): year 2000 (internal 100) would not be a leap year", short(key), types.ExprString(t)))
+				}
+			case *ast.CallExpr:
+				var fo *types.Func
+				switch f := t.Fun.(type) {
+				case *ast.Ident:
+					fo, _ = info.Uses[f].(*types.Func)
+				case *ast.SelectorExpr:
+					fo, _ = info.Uses[f.Sel].(*types.Func)
+				}
+				c := century[fo]
+				if c == nil {
+					return true
+				}
+				for i := range c.idx {
+					if i >= len(t.Args) {
+						continue
+					}
+					nSites++
+					arg := ast.Unparen(t.Args[i])
+					ok := calendar(arg)
+					if id, isId := arg.(*ast.Ident); isId && !ok {
+						// a local assigned exactly once, as internal + 1900
+						if o := info.Uses[id]; o != nil && !internal[o] {
+							n, good := 0, false
+							ast.Inspect(fi.Decl.Body, func(m ast.Node) bool {
+								if as, isAs := m.(*ast.AssignStmt); isAs {
+									for k, l := range as.Lhs {
+										if lid, isL := l.(*ast.Ident); isL && (info.Defs[lid] == o || info.Uses[lid] == o) {
+											n++
+											if k < len(as.Rhs) && calendar(as.Rhs[k]) {
+												good = true
+											}
+										}
+									}
+								}
+								return true
+							})
+							ok = n == 1 && good
+						}
+					}
+					if !ok {
+						bad++
+					}
+					r.Ob("century-rule:"+short(key)+"→"+short(c.fi.Key), p.Pos(t.Pos()), ok, fmt.Sprintf("%s applies a century leap rule to its parameter %d; the argument %s must be the calendar year (internal year + 1900): %v", short(c.fi.Key), i, types.ExprString(arg), ok))
+				}
+			}
+			return true
+		})
+	}
+	if bad == 0 {
+		r.Ob("century-rule", "-", true, fmt.Sprintf("no century remainder reaches an internal year in the date routines (%d call site(s) of century-rule helpers checked, %d package function(s) with a century rule on a parameter)", nSites, len(century)))
+	}
+}
